@@ -38,6 +38,10 @@ out.append('|----|----|----|----|')
 n = hit = 0
 for m in sorted(glob.glob(f'{ROOT}/seeded/*/meta.json')):
   d = json.load(open(m)); cr = d.get('check_result', {})
+  if d.get('superseded'):
+    brk = re.sub(r'^#\s*', '', d.get('breaks', '')).replace('|', '/')[:160]
+    out.append(f"| {d['id']} | {brk} | – | superseded by a fix: commit (see meta.json) |")
+    continue
   n += 1; hit += bool(cr.get('detected'))
   ob = (cr.get('failed_obligations') or ['– (missed)'])[0]
   kind = 'bounded stand-in, failing input' if ob.startswith('bounded:') else ('deductive obligation + failing input replayed on the real code' if cr.get('with_failing_input') else 'deductive obligation (no-failing-input-found)')
